@@ -52,6 +52,8 @@ def rule_l1(ctx: Ctx, m: SharedModel) -> None:
             ctx.violation("C07-L1", s.fi, s.stmt, f"the shared level cache is mutated ({s.target} {s.op}) without the class lock held; unlocked path: {' -> '.join(p.split(':')[-1] for p in path)}", path=path, robust=True)
     for fi, w, txt in m.bad_lock_exprs:
         ctx.violation("C07-L2", fi, w, f"`with {txt}` creates a fresh lock for each entry: it excludes nobody", robust=True)
+    for fi, st, txt in getattr(m, "unchecked_acquires", []):
+        ctx.violation("C07-L2", fi, st, f"`{txt}` can return without the lock (timeout / non-blocking) and its result is ignored: the code after it runs on the shared cache unprotected and then releases a lock it may not hold", robust=True)
 
 
 def rule_l2(ctx: Ctx, m: SharedModel) -> None:
@@ -375,7 +377,10 @@ def _variants():
         V("publish-then-fill", [replace_stmt(PS, "Av._ensure_level_classical_pattern_basis", "self.cache.append(new_level)", ""),
                                 insert_stmt(PS, "Av._ensure_level_classical_pattern_basis", "last_level = self.cache[-1]", "self.cache.append(new_level)", "after")], "fire", "C07-L5"),
         V("last-level-key-insert", insert_stmt(PS, "Av._ensure_level_classical_pattern_basis", "check_length = nplusone in lengths", "last_level[Perm()] = None", "after"), "fire", "C07-L5"),
+        V("lock-acquire-with-timeout-unchecked", replace_stmt(PS, "Av._get_level", "with Av._CACHE_LOCK: ...", "Av._CACHE_LOCK.acquire(timeout=5.0)\ntry:\n    self._ensure_level(level_number)\nfinally:\n    Av._CACHE_LOCK.release()"), "fire", "C07-L2"),
+        V("lock-acquire-nonblocking-unchecked", replace_stmt(PS, "Av._get_level", "with Av._CACHE_LOCK: ...", "Av._CACHE_LOCK.acquire(False)\ntry:\n    self._ensure_level(level_number)\nfinally:\n    Av._CACHE_LOCK.release()"), "fire", "C07-L2"),
         # silent
+        V("lock-acquire-blocking-try-finally", replace_stmt(PS, "Av._get_level", "with Av._CACHE_LOCK: ...", "Av._CACHE_LOCK.acquire(blocking=True)\ntry:\n    self._ensure_level(level_number)\nfinally:\n    Av._CACHE_LOCK.release()"), "silent"),
         V("reformat", reformat_only(PS), "silent"),
         V("lock-moved-into-callee", [replace_stmt(PS, "Av._get_level", "with Av._CACHE_LOCK: ...", "self._ensure_level(level_number)"),
                                      custom(PS, _wrap_body_in_lock("Av._ensure_level"))], "silent", note="the lock taken by the callee around the whole ensure step is the same discipline"),
